@@ -6,7 +6,6 @@ import (
 
 	"github.com/youchainhq/go-youchain/common"
 	"github.com/youchainhq/go-youchain/core/types"
-	"github.com/youchainhq/go-youchain/crypto"
 )
 
 // variant is a transaction the simulator fabricated but did NOT sign for this network with the
@@ -206,5 +205,3 @@ func (s *sim) describeUnknown(h common.Hash) string {
 	}
 	return "a transaction the simulator never made"
 }
-
-var _ = crypto.Keccak256
